@@ -104,7 +104,7 @@ def size_ok(o):
 
 OPS = ["new", "new", "svd", "add", "sub", "mul", "kron", "matmul", "transpose", "scalar", "clone", "to_ttm", "round", "sum", "getitem",
        "permute", "reshape", "cat", "pad", "diag", "mprod", "set_core", "reduce_dims", "dmrg", "hadamard", "amen_mm", "amen_mv", "solve", "divide",
-       "interp", "qtt", "dot", "norm", "factory", "saveload", "set_core_neg", "ctor_from_N", "ctor_from_N", "scribble", "scribble", "ctor_bad", "set_core_badrank", "iop"]
+       "interp", "qtt", "dot", "norm", "factory", "saveload", "set_core_neg", "ctor_from_N", "ctor_from_N", "ctor_from_cores", "ctor_from_cores", "scribble", "scribble", "ctor_bad", "set_core_badrank", "iop"]
 
 def do_step(w, op):
     """performs one call; returns the log entry (name) or None when the op is not applicable"""
@@ -310,6 +310,14 @@ def do_step(w, op):
         else: y -= a_
         if y is not P[i]: w.add(y, "KNew %s" % shlist_coq(y))          # the name was rebound to a new object: object i itself is unchanged
         return "y = obj%d; y %s %r" % (i, sym, a_), None               # (an in-place method would leave y is obj_i: the frame check then shows what moved)
+    if op == "ctor_from_cores":
+        # a new object built from the core list of an existing one (TT(x.cores), the documented constructor from cores): the two objects must not
+        # share the list - the aliasing probe of run_walk then calls set_core on the new one and the frame check shows whether the old one moves
+        i = w.pick(lambda o: size_ok(o))
+        if i is None: return None
+        o = torchtt.TT(P[i].cores)
+        w.add(o, "KNew %s" % shlist_coq(o))
+        return "TT(cores of %d)" % i, None
     if op == "ctor_from_N":
         # a new object built from the dense value and the N list of an existing one: the two must not share their mode-size lists
         i = w.pick(lambda o: not o.is_ttm and size_ok(o) and int(np.prod(o.N)) <= 4096)
